@@ -151,6 +151,13 @@ func checkC04(c *Check) {
 	}
 	c.Floor("emit sites x contexts", 3, nem)
 
+	// 3b. 'bound' means: a login whose PID matches the session's source PID
+	// arrived (C01), and an ended session does not stay around to be bound
+	// again (C09)
+	nb := importRules(c, "C01", checkC01, "bound-means-matching-login: ", "bind-is-PID-justified", "who-may-write-identity")
+	nb += importRules(c, "C09", checkC09, "ended-session-released: ", "end-evidence-complete", "release-on-end")
+	c.Floor("imported bound-means-matching-login / ended-session-released obligations", 5, nb)
+
 	// 4. bound flag only by bind; appends only for own session
 	c.Floor("bind functions", 1, len(t.BindFns))
 	c.Cond(len(t.BindFns) == 1, "bound-flag-only-by-bind", "functions writing user.hasRUL / user.login", "-", "exactly one bind function", fmt.Sprintf("%d functions write the bound flag or the login", len(t.BindFns)))
